@@ -782,6 +782,65 @@ fn fixed_bases() -> Vec<Value> {
     ]
 }
 
+/// boundary values of the storage types: extremes and the middle of the byte range (with repeats),
+/// and for floats the same numbers plus signed zeros, huge, subnormal and just-outside-byte values
+const BYTE_EDGES: [f64; 6] = [0., 1., 127., 128., 254., 255.];
+const FLOAT_EDGES: [f64; 12] = [-0.0, 0.0, 0.5, 255.5, 256., -1., 1e300, -1e300, 5e-324, 2.2250738585072014e-308, f64::MAX, 254.99999999999997];
+
+fn boundary_bases() -> Vec<Value> {
+    let big = 1e300;
+    let sub = 5e-324;
+    vec![
+        // byte-storable lists: the maximum not already in place, repeats, both ends
+        num(&[4], &[255., 1., 7., 200.]),
+        num(&[4], &[200., 1., 7., 255.]),
+        num(&[6], &[0., 255., 255., 0., 1., 254.]),
+        num(&[4], &[127., 128., 127., 128.]),
+        num(&[6], &[254., 255., 0., 1., 127., 128.]),
+        num(&[3], &[255., 255., 255.]),
+        num(&[1], &[255.]),
+        num(&[], &[255.]),
+        // byte-storable matrices (per-row kernels) and a rank-3 array
+        num(&[3, 3], &[255., 3., 9., 4., 255., 255., 0., 2., 1.]),
+        num(&[2, 2], &[128., 127., 255., 0.]),
+        num(&[2, 4], &[255., 0., 254., 1., 1., 254., 0., 255.]),
+        num(&[2, 2, 2], &[255., 0., 1., 254., 128., 127., 255., 255.]),
+        // float-only: the same numbers with signed zeros, huge, subnormal, just outside the byte range
+        num(&[6], &[255., -0.0, big, 0., sub, 1.]),
+        num(&[5], &[256., 255.5, 255., -1., 0.5]),
+        num(&[4], &[-big, big, f64::MAX, 2.2250738585072014e-308]),
+        num(&[4], &[0., -0.0, -0.0, 0.]),
+        num(&[2, 3], &[255., sub, -0.0, big, 0., 128.]),
+    ]
+}
+
+/// a random array over the boundary alphabet (repeats are likely); `floats` adds the float-only edges
+fn gen_boundary_base(r: &mut Rng, floats: bool) -> Value {
+    let shape: Vec<usize> = match r.below(6) {
+        0 | 1 | 2 => vec![1 + r.below(6)],
+        3 | 4 => vec![2 + r.below(2), 2 + r.below(3)],
+        _ => vec![2, 2, 2],
+    };
+    let n: usize = shape.iter().product();
+    let d: Vec<f64> = (0..n)
+        .map(|_| {
+            if floats && r.chance(1, 3) {
+                *r.pick(&FLOAT_EDGES)
+            } else if r.chance(1, 6) {
+                r.below(256) as f64
+            } else {
+                *r.pick(&BYTE_EDGES)
+            }
+        })
+        .collect();
+    num(&shape, &d)
+}
+
+/// catalogue entries whose top-of-stack argument is a shape / count: no large values there
+fn top_is_size(prog: &str) -> bool {
+    prog.contains('↯') || prog.contains('▽') || prog.contains('↙') || prog.contains('⊚') || prog.contains('⇡')
+}
+
 fn search(n: usize, seed: u64) {
     let mut r = Rng::new(seed ^ 0xC06);
     let mut s = Search { evals: 0, cases: 0, errors: 0, viol: 0, by_prog: Default::default() };
@@ -792,6 +851,16 @@ fn search(n: usize, seed: u64) {
         }
         for _ in 0..n {
             let b = gen_num_base(&mut r, 3, false);
+            let b = natural_marks(&mut r, b);
+            differential(&mut s, prog, &[b]);
+        }
+        // boundary values of the byte and float ranges, in lists and matrices
+        for b in boundary_bases() {
+            let b = natural_marks(&mut r, b);
+            differential(&mut s, prog, &[b]);
+        }
+        for k in 0..n {
+            let b = gen_boundary_base(&mut r, k % 3 == 2);
             let b = natural_marks(&mut r, b);
             differential(&mut s, prog, &[b]);
         }
@@ -844,6 +913,18 @@ fn search(n: usize, seed: u64) {
     for prog in DYADIC {
         for (i, j) in [(0usize, 1usize), (3, 0), (6, 4), (7, 7), (0, 0), (9, 10)] {
             differential(&mut s, prog, &[fb[i].clone(), fb[j].clone()]);
+        }
+        // boundary values: always in the deeper argument, and on top unless that is a size
+        let bb = boundary_bases();
+        for (k, (i, j)) in [(0usize, 1usize), (8, 4), (12, 13)].into_iter().enumerate() {
+            let a = bb[i].clone();
+            let b = if top_is_size(prog) { fb[[1usize, 6, 0][k]].clone() } else { bb[j].clone() };
+            differential(&mut s, prog, &[a, b]);
+        }
+        for k in 0..(n / 3 + 1) {
+            let a = gen_boundary_base(&mut r, k % 2 == 1);
+            let b = if top_is_size(prog) { gen_num_base(&mut r, 1, true) } else { gen_boundary_base(&mut r, k % 4 == 3) };
+            differential(&mut s, prog, &[natural_marks(&mut r, a), natural_marks(&mut r, b)]);
         }
         for _ in 0..(n / 3 + 1) {
             let a = gen_num_base(&mut r, 2, false);
